@@ -155,9 +155,13 @@ func (crdtsm *crdtStateManager) ImportState(r io.Reader) error {
 	}
 	batchingSt := st.(state.BatchingState)
 
-	err = importState(r, batchingSt)
+	n, err := importStateN(r, batchingSt)
 	if err != nil {
 		return err
+	}
+	if n == 0 {
+		// nothing was written: go-ds-crdt cannot commit an empty batch
+		return nil
 	}
 
 	return batchingSt.Commit(context.Background())
@@ -186,21 +190,29 @@ func (crdtsm *crdtStateManager) Clean() error {
 }
 
 func importState(r io.Reader, st state.State) error {
+	_, err := importStateN(r, st)
+	return err
+}
+
+// importStateN is importState returning how many pins were imported.
+func importStateN(r io.Reader, st state.State) (int, error) {
 	ctx := context.Background()
 	dec := json.NewDecoder(r)
+	n := 0
 	for {
 		var pin api.Pin
 		err := dec.Decode(&pin)
 		if err == io.EOF {
-			return nil
+			return n, nil
 		}
 		if err != nil {
-			return err
+			return n, err
 		}
 		err = st.Add(ctx, &pin)
 		if err != nil {
-			return err
+			return n, err
 		}
+		n++
 	}
 }
 
